@@ -8,7 +8,10 @@
   The harness calls `next` until the first `end` or panic, at most `extra` more times after the
   first error, and gives up (`hang`) after |input| + 2 records.
 -/
-import LMV.Model.Jaspar
+import LMV.Model.Jaspar16
+import LMV.Model.Uniprobe
+import LMV.Model.Transfac
+import LMV.Driver.F32
 import LMV.Driver.Util
 
 namespace LMV.Driver.Readers
@@ -76,14 +79,41 @@ def jasparMachine : Machine Jaspar.State (CRecord dna.K) where
   step := Jaspar.next Jaspar.record Jaspar.growAmortized
   render := fun r => s!"{hex r.id} {hexOpt r.description} {showMat r.matrix}"
 
+def showMatF {K : Nat} (m : Mat Float32 K) : String :=
+  String.join (toString m.rows :: (m.toLists.flatten.map fun x => " " ++ toString x.toBits.toNat))
+
+def jaspar16Machine (A : Alphabet) : Machine Jaspar.State (CRecord A.K) where
+  init := fun sched data => .ok (Jaspar.new Jaspar.growAmortized sched data)
+  step := Jaspar.next (Jaspar16.record A) Jaspar.growAmortized
+  render := fun r => s!"{hex r.id} {hexOpt r.description} {showMat r.matrix}"
+
+def uniprobeMachine (A : Alphabet) : Machine Uniprobe.State (Uniprobe.URecord Float32 A.K) where
+  init := fun sched data => .ok (Uniprobe.new sched data)
+  step := Uniprobe.next A F32.conv (0.0 : Float32) F32.freqOk
+  render := fun r => s!"{hex r.id} {showMatF r.matrix}"
+
+def showCounts : Option (List (List Nat)) → String
+  | none => "nocounts"
+  | some rows => String.join ("counts " :: toString rows.length :: (rows.flatten.map fun x => " " ++ toString x))
+
+def transfacMachine (A : Alphabet) : Machine Transfac.State (Transfac.TRecord Float32 A.K) where
+  init := Transfac.new
+  step := Transfac.next A F32.conv (0.0 : Float32)
+  render := fun r =>
+    let d := match r.data with | none => "nodata" | some m => showMatF m
+    s!"{hexOpt r.id} {hexOpt r.accession} {hexOpt r.name} {hexOpt r.description} {d} {showCounts (Transfac.toCounts F32.asCount r.data)}"
+
 def handle (detail : Bool) (extra : Nat) (toks : List String) : String :=
   match toks with
   | _op :: fmt :: alpha :: k :: rest =>
     let (sched, rest) := takeNats rest (parseNat! k)
     let data := unhex (rest.headD "-")
-    let _A := if alpha == "dna" then dna else protein
+    let A := if alpha == "dna" then dna else protein
     match fmt with
     | "jaspar" => run jasparMachine detail extra sched data
+    | "jaspar16" => run (jaspar16Machine A) detail extra sched data
+    | "uniprobe" => run (uniprobeMachine A) detail extra sched data
+    | "transfac" => run (transfacMachine A) detail extra sched data
     | _ => "bad-format"
   | _ => "bad-case"
 
